@@ -57,6 +57,20 @@ def run(tier, seed):
         if bad:
             v.violation(bad, desc)
             continue
+        # integer-typed arguments: the literal 0 (forward scattering, f = Z), 1, 2, numpy integers, an integer grid
+        for sint in (0, 1, 2, np.int64(0), np.int32(1), np.arange(3), [0, 1, 2]):
+            try:
+                got = np.asarray(structure.FormFactor(el, sint if not isinstance(sint, list) else np.array(sint)), dtype=float)
+            except Exception as ex:
+                v.violation("FormFactor(%s, %r) raised %r" % (el, sint, ex), desc)
+                break
+            nev += 1
+            sv = np.asarray(sint, dtype=float)
+            want = sum(c[i] * np.exp(-c[i + 4] * sv * sv) for i in range(4)) + c[8]
+            if got.shape != np.shape(want) or np.abs(got - want).max() > 1e-9 * max(1.0, float(np.abs(want).max())):
+                v.violation("FormFactor(%s, %r) = %s for an integer-typed argument, sum a_i exp(-b_i s^2) + c = %s" %
+                            (el, sint, got.tolist(), np.asarray(want).tolist()), desc)
+                break
         # array-valued argument: same values, and the caller's array is left alone (a reused s grid must stay an s grid)
         sg_ = np.array(grid[::100], dtype=float)
         keep = sg_.copy()
